@@ -403,6 +403,7 @@ def connectMx (helo : List Byte) : Nat → St → Out Int
         else if sc = -(ETIMEDOUT : Int) ∧ Gen.Qr.greetTimeoutNextMx = 1 then
           (quitmsgIfNet sc s1).bind fun _ s2 => connectMx helo fuel s2
         else if sc = -(EINVAL : Int) then (quitmsg s1).bind fun _ s2 => connectMx helo fuel s2
+        else if Gen.Qr.greetOtherNextMx = 1 then connectMx helo fuel { s1 with sock := false }   -- netget() ran quitmsg()
         else shutdownAbort (if Gen.Qr.stGreetFail = [] then s1 else writeStatus Gen.Qr.stGreetFail s1)
       else
       (greetLoop (s1.script.length + 1) sc false s1).bind fun (sc2, flagerr) s2 =>
